@@ -56,6 +56,7 @@ class Sched:
         self.choice_log = []        # per choice point: tuple of alternative thread idents (besides the current one)
         self.sig = hashlib.blake2b(digest_size=8)
         self.escaped = []           # exceptions escaping controlled threads
+        self.lock_waits = []
         self.root = None
         self.root_done_at = None
         self.events = []            # total-order event log for the harness: (logical step, virtual time, thread name, *payload)
@@ -239,6 +240,9 @@ class Sched:
             self.status = status
             self.alive = [(t.name, t.state, type(t.wait_on).__name__, getattr(t.wait_on, 'label', '')) for t in self.threads
                           if t.state != 'done']
+            # who waits for a lock held by whom (taken now: the locks are released when the threads are unwound)
+            self.lock_waits = [(t.name, id(t.wait_on), getattr(getattr(t.wait_on, 'owner', None), 'name', None)) for t in self.threads
+                               if t.state != 'done' and isinstance(t.wait_on, CoLock)]
         self.done_evt.set()
 
     # ------------------------------------------------------------------ run
